@@ -122,6 +122,39 @@ Proof.
   destruct (is_actionable el); reflexivity.
 Qed.
 
+Lemma sws_S : forall o f cs s fs,
+  sws o (S f) cs s fs =
+  bind (of_opt (find_config cs (f_flow fs))) (fun cfg =>
+    match slide f (fc_elems cfg) (f_head fs) (st_ctx s) (st_upd s) with
+    | SFuel => Fuel
+    | SErr => Exc
+    | SNone => Exc
+    | SOk h c u =>
+        let s1 := st_set_ctx s c u in
+        let fs1 := fs_head fs h in
+        if h >=? 0 then
+          bind (of_opt (pyidx (fc_elems cfg) h)) (fun el =>
+          match el with
+          | LFlow name =>
+              let sub := new_fstate (st_uid s1) name 0 in
+              let s2 := st_bump_uid s1 in
+              let fs2 := fs_head fs1 (h + 1) in
+              bind (sws o f cs s2 sub) (fun r =>
+              let '(s3, sub') := r in
+              if f_head sub' <? 0 then sws o f cs s3 fs2
+              else
+                let fs3 := fs_intby (fs_status fs2 Interrupted) (Some (f_uid sub')) in
+                let s4 := st_push s3 sub' in
+                bind (of_opt (find_config cs (f_flow sub'))) (fun scfg =>
+                bind (if o_guard o && negb (status_eqb (f_status sub') Active) then Ok s4
+                      else record_next_step s4 sub' scfg 1) (fun s5 =>
+                Ok (s5, fs3))))
+          | _ => bind (record_next_step s1 fs1 cfg 1) (fun s2 => Ok (s2, fs1))
+          end)
+        else Ok (s1, fs1)
+    end).
+Proof. reflexivity. Qed.
+
 Lemma phase1_dead : forall o f cs ev l s ext,
   Forall dead l -> phase1 o f cs ev l s ext = Ok (s, ext).
 Proof.
@@ -169,6 +202,42 @@ Proof.
   intros o cs s f Hno Hf. destruct f as [|f]; [lia|].
   cbn [resume_loop]. rewrite (resume_pass_noint o cs s (List.length (st_fss s)) 0 (S f) false Hno); [reflexivity|lia|lia].
 Qed.
+
+Lemma resume_pass_S : forall o f cs s i changes,
+  resume_pass o (S f) cs s i changes =
+  match nth_error (st_fss s) i with
+  | None => Ok (s, changes)
+  | Some fs =>
+      if status_eqb (f_status fs) Interrupted then
+        let '(should_resume, should_abort) :=
+          match f_intby fs with
+          | None => (true, false)
+          | Some u =>
+              match find_uid (st_fss s) u with
+              | Some g => (status_eqb (f_status g) Completed, status_eqb (f_status g) Aborted)
+              | None => (false, false)
+              end
+          end in
+        if should_resume then
+          let fs1 := fs_intby (fs_status fs Active) None in
+          let s1 := st_set_fss s (list_set (st_fss s) i fs1) in
+          bind (sws o f cs s1 fs1) (fun r =>
+          let '(s2, fs2) := r in
+          let fs3 := if f_head fs2 <? 0 then fs_status fs2 Completed else fs2 in
+          resume_pass o f cs (st_set_fss s2 (list_set (st_fss s2) i fs3)) (S i) true)
+        else if should_abort then
+          let fs1 := fs_intby (fs_status fs Aborted) None in
+          resume_pass o f cs (st_set_fss s (list_set (st_fss s) i fs1)) (S i) true
+        else resume_pass o f cs s (S i) changes
+      else resume_pass o f cs s (S i) changes
+  end.
+Proof. reflexivity. Qed.
+
+Lemma resume_loop_S : forall o f cs s,
+  resume_loop o (S f) cs s =
+  bind (resume_pass o (S f) cs s 0 false) (fun r =>
+  let '(s1, changes) := r in if changes then resume_loop o f cs s1 else Ok s1).
+Proof. reflexivity. Qed.
 
 Lemma decision_flow_in : forall s dfs, decision_flow s = Some dfs -> In dfs (st_fss s).
 Proof.
@@ -263,23 +332,849 @@ Section Prog.
       destruct Hrec as (s1 & Hrec).
       exists (Ok (s1, fs_head fs pw)). split.
       + simpl. exists pw, lp', s1. repeat split; auto.
-      + exists (S F). intros f Hf. destruct f as [|f]; [lia|]. simpl.
-        rewrite Hfl, find_main. simpl. rewrite Hh, Hc, Hu, (HF f) by lia. rewrite Esr.
+      + exists (S F). intros f Hf. destruct f as [|f]; [lia|].
+        rewrite sws_S, Hfl, find_main. cbn [of_opt bind]. change (fc_elems mcfg) with Cm.
+        rewrite Hh, Hc, Hu, (HF f) by lia. rewrite Esr. cbv zeta.
         replace (pw >=? 0) with true by (symmetry; apply Z.geb_le; lia).
-        rewrite Hpy. simpl.
-        destruct w; simpl elem_of_wait; cbv iota; rewrite Hrec; reflexivity.
+        rewrite Hpy. cbn [of_opt bind].
+        destruct w; cbn [elem_of_wait]; rewrite Hrec; reflexivity.
     - (* the body ended *)
       destruct Hpost as (h & Esr & Hneg).
       exists (Ok (st_set_ctx s c' u', fs_head fs h)). split.
       + simpl. exists h. split; [reflexivity|exact Hneg].
-      + exists (S F). intros f Hf. destruct f as [|f]; [lia|]. simpl.
-        rewrite Hfl, find_main. simpl. rewrite Hh, Hc, Hu, (HF f) by lia. rewrite Esr.
-        replace (h >=? 0) with false by (symmetry; apply Z.geb_leb; apply Z.leb_gt; lia).
+      + exists (S F). intros f Hf. destruct f as [|f]; [lia|].
+        rewrite sws_S, Hfl, find_main. cbn [of_opt bind]. change (fc_elems mcfg) with Cm.
+        rewrite Hh, Hc, Hu, (HF f) by lia. rewrite Esr. cbv zeta.
+        replace (h >=? 0) with false by (symmetry; rewrite Z.geb_leb; apply Z.leb_gt; lia).
         reflexivity.
     - (* exception *)
       exists Exc. split; [reflexivity|].
-      exists (S F). intros f Hf. destruct f as [|f]; [lia|]. simpl.
-      rewrite Hfl, find_main. simpl. rewrite Hh, Hc, Hu, (HF f) by lia. rewrite Hpost. reflexivity.
+      exists (S F). intros f Hf. destruct f as [|f]; [lia|].
+      rewrite sws_S, Hfl, find_main. cbn [of_opt bind]. change (fc_elems mcfg) with Cm.
+      rewrite Hh, Hc, Hu, (HF f) by lia. rewrite Hpost. reflexivity.
+  Qed.
+
+  (* ---------------------------------------------------------------- compute_next_state *)
+
+  (* what compute_next_state does after the two loops over flows *)
+  Definition cns_tail (fuel : nat) (s2 : state) (ext : bool) : res state :=
+    bind (if ext then reactivate cs s2 0 (List.length (st_fss s2)) else Ok s2) (fun s3 =>
+    let s4 := assign_intby s3 in
+    bind (match decision_flow s4 with
+          | None => Ok s4
+          | Some dfs =>
+              bind (of_opt (find_config cs (f_flow dfs))) (fun dcfg =>
+              if fc_extension dcfg && (1 <? f_head dfs) then
+                bind (ext_interrupt cs (st_by s4) (st_fss s4)) (fun l => Ok (st_set_fss s4 l))
+              else Ok s4)
+          end) (fun s5 =>
+    resume_loop o fuel cs s5)).
+
+  Definition new_state_of (s : state) : state :=
+    {| st_ctx := st_ctx s; st_fss := []; st_next := None; st_by := None; st_prio := 0;
+       st_upd := []; st_uid := st_uid s |}.
+
+  Definition plain_event (ev : event) : Prop :=
+    match ev with EvStartAct | EvCtx _ | EvHide => False | _ => True end.
+
+  Lemma cns_unfold : forall fuel s ev, plain_event ev ->
+    compute_next_state o fuel cs s ev =
+    bind (phase1 o fuel cs ev (st_fss s) (new_state_of s) false) (fun r =>
+    let '(s1, ext) := r in
+    bind (phase2 o fuel cs ev cs s1) (fun s2 => cns_tail fuel s2 ext)).
+  Proof. intros fuel s ev H. destruct ev; simpl in H; try contradiction; reflexivity. Qed.
+
+  Definition all_main (l : list fstate) : Prop := Forall (fun fs => f_flow fs = p_id p) l.
+
+  Lemma cns_tail_quiet : forall fuel s2,
+    no_interrupted (st_fss s2) -> all_main (st_fss s2) ->
+    (List.length (st_fss s2) + 1 < fuel)%nat ->
+    cns_tail fuel s2 false = Ok s2.
+  Proof.
+    intros fuel s2 Hno Hmain Hf. unfold cns_tail. cbn [bind].
+    rewrite (assign_intby_id _ Hno).
+    destruct (decision_flow s2) as [dfs|] eqn:Ed.
+    - apply decision_flow_in in Ed. unfold all_main in Hmain. rewrite Forall_forall in Hmain.
+      rewrite (Hmain _ Ed), find_main. cbn [of_opt bind]. simpl fc_extension. cbn [andb bind].
+      apply resume_loop_noint; auto.
+    - cbn [bind]. apply resume_loop_noint; auto.
+  Qed.
+
+  (* the start loop when the dialog flow already has an instance *)
+  Lemma phase2_present : forall fuel ev s,
+    has_flow (st_fss s) (p_id p) = true -> phase2 o fuel cs ev cs s = Ok s.
+  Proof.
+    intros fuel ev s H. rewrite cs_eq at 2. simpl. rewrite H. simpl.
+    apply phase2_subflows. apply subs_all_subflow.
+  Qed.
+
+  Lemma has_flow_single : forall fs, f_flow fs = p_id p -> has_flow [fs] (p_id p) = true.
+  Proof. intros fs H. simpl. rewrite H, String.eqb_refl. reflexivity. Qed.
+
+  (* ---------------------------------------------------------------- the simulation relation *)
+
+  Definition R (s : state) (sp : spec_state) : Prop :=
+    st_ctx s = sp_ctx sp /\ st_upd s = sp_upd sp /\
+    st_next s = option_map elem_of_wait (sp_next sp) /\
+    (forall w, sp_next sp = Some w -> wf_wait w /\ actionable w = true) /\
+    all_main (st_fss s) /\
+    match sp_st sp with
+    | Idle => Forall dead (st_fss s)
+    | Run w k [] => exists fs lp, st_fss s = [fs] /\ f_status fs = Active /\ f_intby fs = None /\
+                                  instr Cm (f_head fs) = Some (elem_of_wait w) /\ wf_wait w /\
+                                  kmatch Cm k (f_head fs + 1) lp /\ nodo_kont k = true
+    | Run _ _ (_ :: _) => False
+    end.
+
+  Lemma slide_stays : forall f pc c u el,
+    instr Cm pc = Some el -> slide_elem el pc c u = StStay -> slide (S f) Cm pc c u = SOk pc c u.
+  Proof.
+    intros f pc c u el Hi He. unfold slide. simpl. destruct (instr_nth _ _ _ Hi) as [E1 E2].
+    rewrite E1, E2, He. reflexivity.
+  Qed.
+
+  Lemma slide_elem_wait : forall w pc c u, slide_elem (elem_of_wait w) pc c u = StStay.
+  Proof. destruct w; reflexivity. Qed.
+
+  (* a state whose only flow state waits on statement w, with the next step just recorded *)
+  Lemma R_wait_gen : forall s0 fs w k' lp' s1 m,
+    st_next s0 = None ->
+    record_next_step s0 fs mcfg m = Ok s1 ->
+    instr Cm (f_head fs) = Some (elem_of_wait w) -> wf_wait w -> kmatch Cm k' (f_head fs + 1) lp' ->
+    nodo_kont k' = true ->
+    f_flow fs = p_id p -> f_status fs = Active -> f_intby fs = None ->
+    R (st_set_fss s1 [fs])
+      {| sp_st := Run w k' []; sp_ctx := st_ctx s0; sp_upd := st_upd s0;
+         sp_next := if actionable w then Some w else None |}.
+  Proof.
+    intros s0 fs w k' lp' s1 m Hn Hrec Hi Hw Hk Hnk Hfl Hst Hib.
+    pose proof (instr_lt _ _ _ Hi) as Hrg.
+    pose proof (instr_pyidx _ _ _ (proj1 Hrg) Hi) as Hpy.
+    rewrite (record_next_step_fresh _ _ _ _ (elem_of_wait w)) in Hrec; [|exact Hn|exact Hpy].
+    rewrite (is_actionable_wait _ Hw) in Hrec. inversion Hrec; subst s1; clear Hrec.
+    unfold R. cbn [sp_st sp_ctx sp_upd sp_next].
+    assert (Hm : all_main [fs]) by (constructor; [exact Hfl|constructor]).
+    assert (Hrun : exists fs0 lp, [fs] = [fs0] /\ f_status fs0 = Active /\ f_intby fs0 = None /\
+                     instr Cm (f_head fs0) = Some (elem_of_wait w) /\ wf_wait w /\
+                     kmatch Cm k' (f_head fs0 + 1) lp /\ nodo_kont k' = true).
+    { exists fs, lp'. repeat split; auto. }
+    destruct (actionable w) eqn:Ea; simpl;
+      (split; [reflexivity|split; [reflexivity|split; [try reflexivity; exact Hn|split; [|split; [exact Hm|exact Hrun]]]]]).
+    - intros w0 E. inversion E; subst. auto.
+    - intros w0 E. discriminate.
+  Qed.
+
+  Lemma R_after_wait : forall s0 c' u' fs pw w k' lp' s1,
+    st_next s0 = None ->
+    record_next_step (st_set_ctx s0 c' u') (fs_head fs pw) mcfg 1 = Ok s1 ->
+    instr Cm pw = Some (elem_of_wait w) -> wf_wait w -> kmatch Cm k' (pw + 1) lp' -> nodo_kont k' = true ->
+    f_flow fs = p_id p -> f_status fs = Active -> f_intby fs = None ->
+    R (st_set_fss s1 [fs_head fs pw])
+      {| sp_st := Run w k' []; sp_ctx := c'; sp_upd := u'; sp_next := if actionable w then Some w else None |}.
+  Proof.
+    intros s0 c' u' fs pw w k' lp' s1 Hn Hrec Hi Hw Hk Hnk Hfl Hst Hib.
+    apply (R_wait_gen (st_set_ctx s0 c' u') (fs_head fs pw) w k' lp' s1 1); auto.
+  Qed.
+
+  Definition res_rel (flat : nat -> res state) (spec : res spec_state) : Prop :=
+    match spec with
+    | Ok sp' => exists s', R s' sp' /\ exists F, forall f, (F <= f)%nat -> flat f = Ok s'
+    | Exc => exists F, forall f, (F <= f)%nat -> flat f = Exc
+    | Fuel => True
+    end.
+
+  Lemma R_after_end : forall s0 c' u' fs h,
+    st_next s0 = None -> f_flow fs = p_id p ->
+    R (st_set_fss (st_set_ctx s0 c' u') [fs_status (fs_head fs h) Completed])
+      {| sp_st := Idle; sp_ctx := c'; sp_upd := u'; sp_next := None |}.
+  Proof.
+    intros s0 c' u' fs h Hn Hfl. unfold R. cbn [sp_st sp_ctx sp_upd sp_next]. simpl.
+    split; [reflexivity|split; [reflexivity|split; [exact Hn|split; [|split]]]].
+    - intros w E. discriminate.
+    - constructor; [exact Hfl|constructor].
+    - constructor; [left; reflexivity|constructor].
+  Qed.
+
+  Lemma fuel_max : forall (P Q : nat -> Prop) F1 F2,
+    (forall f, (F1 <= f)%nat -> P f) -> (forall f, (F2 <= f)%nat -> Q f) ->
+    forall f, (Nat.max F1 F2 <= f)%nat -> P f /\ Q f.
+  Proof. intros P Q F1 F2 H1 H2 f Hf. split; [apply H1|apply H2]; lia. Qed.
+
+
+  (* phase 1 on the single running instance of the dialog flow, waiting on statement w *)
+  Lemma phase1_single : forall f ev fs w ns,
+    f_flow fs = p_id p -> f_status fs = Active ->
+    instr Cm (f_head fs) = Some (elem_of_wait w) -> wf_wait w ->
+    phase1 o f cs ev [fs] ns false =
+    if negb (string_in (event_type ev) default_triggers) then
+      bind (record_next_step (st_push ns fs) fs mcfg q09) (fun s1 => Ok (s1, false))
+    else if wait_match w ev then
+      bind (sws o f cs ns (fs_head fs (f_head fs + 1))) (fun r =>
+        let '(s1, fs1) := r in
+        if f_head fs1 <? 0 then Ok (st_push s1 (fs_status fs1 Completed), false)
+        else Ok (st_push s1 fs1, false))
+    else if actionable w then Ok (st_push ns (fs_status fs Aborted), false)
+    else Ok (st_push ns (fs_status fs Interrupted), false).
+  Proof.
+    intros f ev fs w ns Hfl Hst Hi Hw.
+    pose proof (instr_lt _ _ _ Hi) as Hrg.
+    pose proof (instr_pyidx _ _ _ (proj1 Hrg) Hi) as Hpy.
+    cbn [phase1]. rewrite Hst, Hfl, find_main. cbn [of_opt bind]. change (fc_elems mcfg) with Cm.
+    rewrite Hpy. cbn [of_opt bind]. change (fc_triggers mcfg) with default_triggers.
+    destruct (negb (string_in (event_type ev) default_triggers)).
+    - destruct (record_next_step (st_push ns fs) fs mcfg q09); reflexivity.
+    - pose proof (is_match_wait w ev Hw) as Hm. pose proof (is_actionable_wait w Hw) as Ha.
+      assert (Hz : (f_head fs + 1 =? 0) = false) by (apply Z.eqb_neq; lia).
+      destruct w; cbn [elem_of_wait] in *; rewrite Hm; destruct (wait_match _ ev); cbn [bind];
+        try rewrite Hz; try rewrite Ha; cbn [bind orb negb];
+        try (destruct (sws o f cs ns (fs_head fs (f_head fs + 1))) as [[s1 fs1]| |]; cbn [bind]; try reflexivity;
+             destruct (f_head fs1 <? 0); reflexivity);
+        try (simpl fc_interruptible; cbn [negb orb]; destruct (actionable _); reflexivity).
+  Qed.
+
+  (* a waiting flow receives the event it waits for *)
+  Lemma run_match : forall fuel s w k ev fs lp c,
+    plain_event ev ->
+    st_fss s = [fs] -> f_flow fs = p_id p -> f_status fs = Active -> f_intby fs = None ->
+    instr Cm (f_head fs) = Some (elem_of_wait w) -> wf_wait w ->
+    kmatch Cm k (f_head fs + 1) lp -> nodo_kont k = true ->
+    st_ctx s = c ->
+    string_in (event_type ev) default_triggers = true ->
+    wait_match w ev = true ->
+    res_rel (fun f => compute_next_state o f cs s ev)
+            (of_xres (xres_of (lexec fuel c [] [] k))).
+  Proof.
+    intros fuel s w k ev fs lp c Hpl Hfss Hfl Hst Hib Hi Hw Hk Hnk Hc Htr Hm.
+    pose proof (instr_lt _ _ _ Hi) as Hrg.
+    pose proof (instr_pyidx _ _ _ (proj1 Hrg) Hi) as Hpy.
+    assert (H1 : code_at Cm (f_head fs + 1) (compile_block (rel lp (f_head fs + 1)) [])).
+    { simpl. apply code_at_nil. apply kmatch_range in Hk. exact Hk. }
+    assert (H3 : kmatch Cm k (f_head fs + 1 + bsize []) lp).
+    { simpl bsize. replace (f_head fs + 1 + 0) with (f_head fs + 1) by lia. exact Hk. }
+    remember (lexec fuel c [] [] k) as r eqn:Er. symmetry in Er.
+    destruct (exec_lexec (p_subs p) fuel c [] [] k eq_refl Hnk) as [_ Hnd]. rewrite Er in Hnd.
+    destruct r as [w' k' c' u'|name k' c' u'|c' u'| |]; simpl in Hnd; try contradiction;
+      cbn [xres_of of_xres res_rel]; auto.
+    - (* blocks again *)
+      assert (Hnf : LWait w' k' c' u' <> LFuel) by congruence.
+      set (ns := new_state_of s).
+      destruct (sws_sim fuel c [] [] k _ Er Hnf Hnd (f_head fs + 1) lp ns (fs_head fs (f_head fs + 1))
+                        H1 eq_refl H3 Hc eq_refl Hfl eq_refl) as (rs & Hpost & F & HF).
+      simpl in Hpost. destruct Hpost as (pw & lp' & s1 & Eres & Hi' & Hw' & Hk' & Hrec).
+      exists (st_set_fss s1 [fs_head (fs_head fs (f_head fs + 1)) pw]). split.
+      + apply (R_after_wait ns c' u' (fs_head fs (f_head fs + 1)) pw w' k' lp' s1); auto.
+      + exists (Nat.max F 3). intros f Hf.
+        rewrite cns_unfold by exact Hpl. rewrite Hfss. fold ns.
+        rewrite (phase1_single f ev fs w ns Hfl Hst Hi Hw), Htr, Hm. cbn [negb].
+        rewrite (HF f) by lia. rewrite Eres. cbn [bind].
+        pose proof (instr_lt _ _ _ Hi') as Hrg'.
+        replace (f_head (fs_head (fs_head fs (f_head fs + 1)) pw) <? 0) with false
+          by (symmetry; apply Z.ltb_ge; simpl; lia).
+        cbn [phase1 bind].
+        destruct (record_next_step_inv _ _ _ _ _ Hrec) as (Hf1 & _).
+        rewrite phase2_present.
+        2:{ unfold st_push. simpl. rewrite Hf1. simpl. rewrite Hfl, String.eqb_refl. reflexivity. }
+        cbn [bind].
+        assert (Efss : st_push s1 (fs_head (fs_head fs (f_head fs + 1)) pw)
+                       = st_set_fss s1 [fs_head (fs_head fs (f_head fs + 1)) pw]).
+        { unfold st_push. rewrite Hf1. reflexivity. }
+        rewrite Efss. apply cns_tail_quiet.
+        * simpl. constructor; [simpl; rewrite Hst; reflexivity|constructor].
+        * simpl. constructor; [exact Hfl|constructor].
+        * simpl. lia.
+    - (* the flow ends *)
+      assert (Hnf : LEnd c' u' <> LFuel) by congruence.
+      set (ns := new_state_of s).
+      destruct (sws_sim fuel c [] [] k _ Er Hnf Hnd (f_head fs + 1) lp ns (fs_head fs (f_head fs + 1))
+                        H1 eq_refl H3 Hc eq_refl Hfl eq_refl) as (rs & Hpost & F & HF).
+      simpl in Hpost. destruct Hpost as (h & Eres & Hneg).
+      exists (st_set_fss (st_set_ctx ns c' u') [fs_status (fs_head (fs_head fs (f_head fs + 1)) h) Completed]). split.
+      + apply R_after_end; auto.
+      + exists (Nat.max F 3). intros f Hf.
+        rewrite cns_unfold by exact Hpl. rewrite Hfss. fold ns.
+        rewrite (phase1_single f ev fs w ns Hfl Hst Hi Hw), Htr, Hm. cbn [negb].
+        rewrite (HF f) by lia. rewrite Eres. cbn [bind].
+        replace (f_head (fs_head (fs_head fs (f_head fs + 1)) h) <? 0) with true
+          by (symmetry; apply Z.ltb_lt; simpl; lia).
+        cbn [phase1 bind].
+        rewrite phase2_present.
+        2:{ simpl. rewrite Hfl, String.eqb_refl. reflexivity. }
+        cbn [bind]. simpl orb.
+        apply cns_tail_quiet.
+        * simpl. constructor; [reflexivity|constructor].
+        * simpl. constructor; [exact Hfl|constructor].
+        * simpl. lia.
+    - (* exception *)
+      assert (Hnf : LExc <> LFuel) by congruence.
+      set (ns := new_state_of s).
+      destruct (sws_sim fuel c [] [] k _ Er Hnf Hnd (f_head fs + 1) lp ns (fs_head fs (f_head fs + 1))
+                        H1 eq_refl H3 Hc eq_refl Hfl eq_refl) as (rs & Hpost & F & HF).
+      simpl in Hpost. subst rs.
+      exists (Nat.max F 3). intros f Hf.
+      rewrite cns_unfold by exact Hpl. rewrite Hfss. fold ns.
+        rewrite (phase1_single f ev fs w ns Hfl Hst Hi Hw), Htr, Hm. cbn [negb].
+        rewrite (HF f) by lia. reflexivity.
+  Qed.
+
+  (* sws on a flow state that already sits on the statement it waits for *)
+  Lemma sws_at_wait : forall f s fs w,
+    f_flow fs = p_id p -> instr Cm (f_head fs) = Some (elem_of_wait w) ->
+    sws o (S (S f)) cs s fs =
+    bind (record_next_step (st_set_ctx s (st_ctx s) (st_upd s)) (fs_head fs (f_head fs)) mcfg 1)
+         (fun s2 => Ok (s2, fs_head fs (f_head fs))).
+  Proof.
+    intros f s fs w Hfl Hi.
+    pose proof (instr_lt _ _ _ Hi) as Hrg.
+    pose proof (instr_pyidx _ _ _ (proj1 Hrg) Hi) as Hpy.
+    rewrite sws_S, Hfl, find_main. cbn [of_opt bind]. change (fc_elems mcfg) with Cm.
+    rewrite (slide_stays f _ _ _ _ Hi (slide_elem_wait _ _ _ _)). cbv zeta.
+    replace (f_head fs >=? 0) with true by (symmetry; apply Z.geb_le; lia).
+    rewrite Hpy. cbn [of_opt bind]. destruct w; reflexivity.
+  Qed.
+
+  Lemma st_set_ctx_same : forall s, st_set_ctx s (st_ctx s) (st_upd s) = s.
+  Proof. destruct s; reflexivity. Qed.
+
+  Lemma fs_head_same : forall fs, fs_head fs (f_head fs) = fs.
+  Proof. destruct fs; reflexivity. Qed.
+
+  (* a waiting flow receives an event of a type that does not trigger flows *)
+  Lemma run_nontrigger : forall s w k ev fs lp,
+    plain_event ev ->
+    st_fss s = [fs] -> f_flow fs = p_id p -> f_status fs = Active -> f_intby fs = None ->
+    instr Cm (f_head fs) = Some (elem_of_wait w) -> wf_wait w ->
+    kmatch Cm k (f_head fs + 1) lp -> nodo_kont k = true ->
+    string_in (event_type ev) default_triggers = false ->
+    res_rel (fun f => compute_next_state o f cs s ev)
+            (Ok {| sp_st := Run w k []; sp_ctx := st_ctx s; sp_upd := [];
+                   sp_next := if actionable w then Some w else None |}).
+  Proof.
+    intros s w k ev fs lp Hpl Hfss Hfl Hst Hib Hi Hw Hk Hnk Htr.
+    pose proof (instr_lt _ _ _ Hi) as Hrg.
+    pose proof (instr_pyidx _ _ _ (proj1 Hrg) Hi) as Hpy.
+    set (ns := new_state_of s).
+    destruct (record_next_step (st_push ns fs) fs mcfg q09) as [s1| |] eqn:Hrec.
+    2,3: (rewrite (record_next_step_fresh _ _ _ _ (elem_of_wait w)) in Hrec; [discriminate|reflexivity|exact Hpy]).
+    cbn [res_rel]. exists (st_set_fss s1 [fs]). split.
+    - apply (R_wait_gen (st_push ns fs) fs w k lp s1 q09); auto.
+    - exists 3%nat. intros f Hf.
+      rewrite cns_unfold by exact Hpl. rewrite Hfss. fold ns.
+      rewrite (phase1_single f ev fs w ns Hfl Hst Hi Hw), Htr. cbn [negb]. rewrite Hrec. cbn [bind].
+      destruct (record_next_step_inv _ _ _ _ _ Hrec) as (Hf1 & _). simpl in Hf1.
+      rewrite phase2_present by (rewrite Hf1; apply has_flow_single; exact Hfl).
+      cbn [bind].
+      replace s1 with (st_set_fss s1 [fs]) at 1 by (rewrite <- Hf1; apply st_set_fss_same).
+      apply cns_tail_quiet.
+      + simpl. constructor; [rewrite Hst; reflexivity|constructor].
+      + simpl. constructor; [exact Hfl|constructor].
+      + simpl. lia.
+  Qed.
+
+  (* ... an event that does not match, while waiting on its own bot/execute step: abandoned *)
+  Lemma run_abort : forall s w ev fs,
+    plain_event ev ->
+    st_fss s = [fs] -> f_flow fs = p_id p -> f_status fs = Active ->
+    instr Cm (f_head fs) = Some (elem_of_wait w) -> wf_wait w ->
+    string_in (event_type ev) default_triggers = true ->
+    wait_match w ev = false -> actionable w = true ->
+    res_rel (fun f => compute_next_state o f cs s ev)
+            (Ok {| sp_st := Idle; sp_ctx := st_ctx s; sp_upd := []; sp_next := None |}).
+  Proof.
+    intros s w ev fs Hpl Hfss Hfl Hst Hi Hw Htr Hm Ha.
+    set (ns := new_state_of s).
+    cbn [res_rel]. exists (st_push ns (fs_status fs Aborted)). split.
+    - unfold R. cbn [sp_st sp_ctx sp_upd sp_next]. simpl.
+      split; [reflexivity|split; [reflexivity|split; [reflexivity|split; [|split]]]].
+      + intros w0 E. discriminate.
+      + constructor; [exact Hfl|constructor].
+      + constructor; [right; reflexivity|constructor].
+    - exists 3%nat. intros f Hf.
+      rewrite cns_unfold by exact Hpl. rewrite Hfss. fold ns.
+      rewrite (phase1_single f ev fs w ns Hfl Hst Hi Hw), Htr, Hm, Ha. cbn [negb bind].
+      rewrite phase2_present by (apply has_flow_single; exact Hfl).
+      cbn [bind]. apply cns_tail_quiet.
+      + simpl. constructor; [reflexivity|constructor].
+      + simpl. constructor; [exact Hfl|constructor].
+      + simpl. lia.
+  Qed.
+
+  (* ... while waiting for the user (or `bot ...`): the flow keeps waiting *)
+  Lemma run_stay : forall s w k ev fs lp,
+    plain_event ev ->
+    st_fss s = [fs] -> f_flow fs = p_id p -> f_status fs = Active -> f_intby fs = None ->
+    instr Cm (f_head fs) = Some (elem_of_wait w) -> wf_wait w ->
+    kmatch Cm k (f_head fs + 1) lp -> nodo_kont k = true ->
+    string_in (event_type ev) default_triggers = true ->
+    wait_match w ev = false -> actionable w = false ->
+    res_rel (fun f => compute_next_state o f cs s ev)
+            (Ok {| sp_st := Run w k []; sp_ctx := st_ctx s; sp_upd := []; sp_next := None |}).
+  Proof.
+    intros s w k ev fs lp Hpl Hfss Hfl Hst Hib Hi Hw Hk Hnk Htr Hm Ha.
+    pose proof (instr_lt _ _ _ Hi) as Hrg.
+    pose proof (instr_pyidx _ _ _ (proj1 Hrg) Hi) as Hpy.
+    set (ns := new_state_of s).
+    set (fsA := fs_intby (fs_status (fs_status fs Interrupted) Active) None).
+    cbn [res_rel]. exists (st_push ns fsA). split.
+    - unfold R. cbn [sp_st sp_ctx sp_upd sp_next]. simpl.
+      split; [reflexivity|split; [reflexivity|split; [reflexivity|split; [|split]]]].
+      + intros w0 E. discriminate.
+      + constructor; [exact Hfl|constructor].
+      + exists fsA, lp. repeat split; auto.
+    - exists 6%nat. intros f Hf.
+      rewrite cns_unfold by exact Hpl. rewrite Hfss. fold ns.
+      rewrite (phase1_single f ev fs w ns Hfl Hst Hi Hw), Htr, Hm, Ha. cbn [negb bind].
+      rewrite phase2_present by (apply has_flow_single; exact Hfl).
+      cbn [bind]. unfold cns_tail. cbn [bind].
+      (* interrupted_by stays None: nothing decided *)
+      assert (Hai : assign_intby (st_push ns (fs_status fs Interrupted)) = st_push ns (fs_status fs Interrupted)).
+      { unfold assign_intby. simpl.
+        replace (f_intby fs) with (@None N). simpl. unfold st_push, st_set_fss. simpl.
+        f_equal. f_equal. clear - Hib. destruct fs; simpl in *; subst; reflexivity. }
+      rewrite Hai. cbn [decision_flow st_by st_push st_set_fss ns new_state_of bind].
+      (* the resume loop re-activates it; it has nothing to propose *)
+      assert (Hsw : forall g s0, st_next s0 = None ->
+                sws o (S (S g)) cs s0 fsA = Ok (s0, fsA)).
+      { intros g s0 Hn0. rewrite (sws_at_wait g s0 fsA w Hfl Hi), st_set_ctx_same, fs_head_same.
+        rewrite (record_next_step_fresh _ _ _ _ (elem_of_wait w)); [|exact Hn0|exact Hpy].
+        rewrite (is_actionable_wait _ Hw), Ha. reflexivity. }
+      destruct f as [|[|[|[|f]]]]; try lia.
+      rewrite resume_loop_S, resume_pass_S.
+      change (st_fss (st_push ns (fs_status fs Interrupted))) with [fs_status fs Interrupted].
+      cbn [nth_error]. change (f_status (fs_status fs Interrupted)) with Interrupted. cbn [status_eqb].
+      change (f_intby (fs_status fs Interrupted)) with (f_intby fs). rewrite Hib. cbv iota beta zeta.
+      cbn [list_set]. fold fsA.
+      rewrite Hsw by reflexivity. cbn [bind]. cbv iota beta zeta.
+      replace (f_head fsA <? 0) with false by (symmetry; apply Z.ltb_ge; simpl; lia).
+      rewrite resume_pass_S. cbn [st_fss st_set_fss list_set nth_error]. cbn [bind].
+      (* second pass: nothing changes *)
+      apply resume_loop_noint.
+      + simpl. constructor; [reflexivity|constructor].
+      + simpl. lia.
+  Qed.
+
+  (* no instance is running *)
+  Lemma idle_event : forall fuel s ev i0 rest0,
+    plain_event ev -> p_main p = SUser i0 :: rest0 ->
+    Forall dead (st_fss s) ->
+    res_rel (fun f => compute_next_state o f cs s ev)
+            (if wait_match (WUser i0) ev
+             then of_xres (xres_of (lexec fuel (st_ctx s) [] rest0 KDone))
+             else Ok {| sp_st := Idle; sp_ctx := st_ctx s; sp_upd := []; sp_next := None |}).
+  Proof.
+    intros fuel s ev i0 rest0 Hpl Emain Hdead.
+    destruct main_shape as (i0' & rest0' & E' & Hwr & Hnr). rewrite Emain in E'. inversion E'; subst i0' rest0'.
+    pose proof (Cm_shape _ _ Emain) as ECm.
+    set (ns := new_state_of s).
+    assert (Hi0 : instr Cm 0 = Some (elem_of_wait (WUser i0))) by (rewrite ECm; reflexivity).
+    assert (Hpy0 : pyidx Cm 0 = Some (LUser i0)).
+    { apply instr_pyidx; [lia|exact Hi0]. }
+    (* the common prefix: phase 1 drops the dead instances, phase 2 looks at the first element *)
+    assert (Hpre : forall f, (1 <= f)%nat ->
+              compute_next_state o f cs s ev =
+              bind (if wait_match (WUser i0) ev then
+                      bind (sws o f cs (st_push (st_bump_uid ns) (new_fstate (st_uid ns) (p_id p) 1))
+                                (new_fstate (st_uid ns) (p_id p) 1)) (fun r =>
+                      let '(s3, fs') := r in
+                      Ok (st_set_fss s3 (list_set (st_fss s3) 0
+                            (if o_mark o && (f_head fs' <? 0) then fs_status fs' Completed else fs'))))
+                    else Ok ns) (fun s2 => cns_tail f s2 false)).
+    { intros f Hf. destruct f as [|f]; [lia|].
+      rewrite cns_unfold by exact Hpl. rewrite (phase1_dead _ _ _ _ _ _ _ Hdead). cbn [bind]. fold ns.
+      rewrite cs_eq at 2. cbn [phase2]. change (fc_subflow mcfg) with false. cbv iota.
+      change (fc_multiple mcfg) with false. change (st_fss ns) with (@nil fstate). cbn [has_flow existsb negb andb].
+      change (fc_elems mcfg) with Cm.
+      rewrite (slide_stays f 0 (st_ctx ns) (st_upd ns) _ Hi0 eq_refl). cbv zeta.
+      rewrite Hpy0. cbn [of_opt bind].
+      change (is_match (LUser i0) ev) with (is_match (elem_of_wait (WUser i0)) ev).
+      rewrite (is_match_wait (WUser i0) ev I).
+      change (st_set_ctx ns (st_ctx ns) (st_upd ns)) with ns. change (fc_id mcfg) with (p_id p).
+      change (0 + 1) with 1. cbn [List.length].
+      destruct (wait_match (WUser i0) ev).
+      - destruct (sws o (S f) cs _ _) as [[s3 fs']| |]; cbn [bind]; try reflexivity.
+        rewrite (phase2_subflows _ _ _ _ _ _ subs_all_subflow). reflexivity.
+      - rewrite (phase2_subflows _ _ _ _ _ _ subs_all_subflow). reflexivity. }
+    destruct (wait_match (WUser i0) ev) eqn:Em.
+    - (* the flow starts *)
+      set (fs0 := new_fstate (st_uid ns) (p_id p) 1) in *.
+      set (s2 := st_push (st_bump_uid ns) fs0) in *.
+      assert (H1 : code_at Cm 1 (compile_block (rel None 1) rest0)).
+      { rewrite ECm. change (LUser i0 :: compile_block None rest0) with ([LUser i0] ++ compile_block None rest0).
+        apply (code_at_app_r _ 0 [LUser i0]). apply code_at_whole. }
+      assert (H3 : kmatch Cm KDone (1 + bsize rest0) None).
+      { apply km_done. rewrite ECm, zlen_cons, compile_block_length. reflexivity. }
+      remember (lexec fuel (st_ctx s) [] rest0 KDone) as r eqn:Er. symmetry in Er.
+      destruct (exec_lexec (p_subs p) fuel (st_ctx s) [] rest0 KDone Hnr eq_refl) as [_ Hnd]. rewrite Er in Hnd.
+      destruct r as [w' k' c' u'|name k' c' u'|c' u'| |]; simpl in Hnd; try contradiction;
+        cbn [xres_of of_xres res_rel]; auto.
+      + assert (Hnf : LWait w' k' c' u' <> LFuel) by congruence.
+        destruct (sws_sim fuel (st_ctx s) [] rest0 KDone _ Er Hnf Hnd 1 None s2 fs0
+                          H1 Hwr H3 eq_refl eq_refl eq_refl eq_refl) as (rs & Hpost & F & HF).
+        simpl in Hpost. destruct Hpost as (pw & lp' & s1 & Eres & Hi' & Hw' & Hk' & Hrec).
+        exists (st_set_fss s1 [fs_head fs0 pw]). split.
+        * apply (R_after_wait s2 c' u' fs0 pw w' k' lp' s1); auto.
+        * exists (Nat.max F 3). intros f Hf. rewrite Hpre by lia. rewrite (HF f) by lia. rewrite Eres. cbn [bind].
+          pose proof (instr_lt _ _ _ Hi') as Hrg'.
+          replace (f_head (fs_head fs0 pw) <? 0) with false by (symmetry; apply Z.ltb_ge; simpl; lia).
+          rewrite andb_false_r.
+          destruct (record_next_step_inv _ _ _ _ _ Hrec) as (Hf1 & _). simpl in Hf1. rewrite Hf1. cbn [list_set].
+          apply cns_tail_quiet.
+          -- simpl. constructor; [reflexivity|constructor].
+          -- simpl. constructor; [reflexivity|constructor].
+          -- simpl. lia.
+      + assert (Hnf : LEnd c' u' <> LFuel) by congruence.
+        destruct (sws_sim fuel (st_ctx s) [] rest0 KDone _ Er Hnf Hnd 1 None s2 fs0
+                          H1 Hwr H3 eq_refl eq_refl eq_refl eq_refl) as (rs & Hpost & F & HF).
+        simpl in Hpost. destruct Hpost as (h & Eres & Hneg).
+        exists (st_set_fss (st_set_ctx s2 c' u') [fs_status (fs_head fs0 h) Completed]). split.
+        * apply R_after_end; reflexivity.
+        * exists (Nat.max F 3). intros f Hf. rewrite Hpre by lia. rewrite (HF f) by lia. rewrite Eres. cbn [bind].
+          replace (f_head (fs_head fs0 h) <? 0) with true by (symmetry; apply Z.ltb_lt; simpl; lia).
+          rewrite Hmark. cbn [andb]. simpl list_set.
+          apply cns_tail_quiet.
+          -- simpl. constructor; [reflexivity|constructor].
+          -- simpl. constructor; [reflexivity|constructor].
+          -- simpl. lia.
+      + assert (Hnf : LExc <> LFuel) by congruence.
+        destruct (sws_sim fuel (st_ctx s) [] rest0 KDone _ Er Hnf Hnd 1 None s2 fs0
+                          H1 Hwr H3 eq_refl eq_refl eq_refl eq_refl) as (rs & Hpost & F & HF).
+        simpl in Hpost. subst rs.
+        exists (Nat.max F 3). intros f Hf. rewrite Hpre by lia. rewrite (HF f) by lia. reflexivity.
+    - (* nothing starts *)
+      cbn [res_rel]. exists ns. split.
+      + unfold R. cbn [sp_st sp_ctx sp_upd sp_next]. simpl.
+        split; [reflexivity|split; [reflexivity|split; [reflexivity|split; [|split]]]].
+        * intros w0 E. discriminate.
+        * constructor.
+        * constructor.
+      + exists 3%nat. intros f Hf. rewrite Hpre by lia. cbn [bind].
+        apply cns_tail_quiet; simpl; [constructor|constructor|lia].
+  Qed.
+
+  Lemma resume_lexec : forall fuel c u k,
+    nodo_kont k = true ->
+    resume (p_subs p) fuel c u k [] = xres_of (lexec fuel c u [] k).
+  Proof.
+    intros fuel c u k Hnk. destruct fuel as [|f]; [reflexivity|].
+    cbn [resume]. destruct (exec_lexec (p_subs p) (S f) c u [] k eq_refl Hnk) as [E Hnd]. rewrite E.
+    destruct (lexec (S f) c u [] k); simpl in *; try reflexivity; contradiction.
+  Qed.
+
+  (* one event *)
+  Lemma cns_sim : forall fuel s sp ev,
+    R s sp -> ev <> EvHide ->
+    res_rel (fun f => compute_next_state o f cs s ev) (spec_event fuel p sp ev).
+  Proof.
+    intros fuel s sp ev HR Hev.
+    destruct HR as (Hc & Hu & Hn & Hnw & Hmain & Hshape).
+    destruct ev; try congruence.
+    5:{ (* ContextUpdate *)
+      cbn [spec_event compute_next_state res_rel].
+      eexists. split; [|exists 0%nat; intros; reflexivity].
+      unfold R. cbn [sp_st sp_ctx sp_upd sp_next st_ctx st_upd st_next st_fss option_map].
+      rewrite Hc. split; [reflexivity|split; [reflexivity|split; [reflexivity|split; [|split; [exact Hmain|exact Hshape]]]]].
+      intros w E; discriminate. }
+    4:{ (* StartInternalSystemAction *)
+      cbn [spec_event compute_next_state res_rel]. exists s. split; [|exists 0%nat; intros; reflexivity].
+      unfold R. split; [exact Hc|split; [exact Hu|split; [exact Hn|split; [exact Hnw|split; [exact Hmain|exact Hshape]]]]]. }
+    all: cbn [spec_event].
+    all: revert Hshape; destruct (sp_st sp) as [|w k stk] eqn:Est; [|destruct stk as [|k2 stk]]; intros Hshape;
+         try contradiction.
+    all: try (match goal with
+              | |- res_rel (fun f => compute_next_state _ f _ _ ?e) _ =>
+                  destruct main_shape as (i0 & rest0 & Emain & Hwr & Hnr); rewrite Emain;
+                  destruct (exec_lexec (p_subs p) fuel (sp_ctx sp) [] rest0 KDone Hnr eq_refl) as [Ex _];
+                  rewrite Ex, <- Hc; apply (idle_event fuel s e i0 rest0 I Emain Hshape)
+              end).
+    all: destruct Hshape as (fs & lp & Hfss & Hst & Hib & Hi & Hw & Hk & Hnk);
+         assert (Hfl : f_flow fs = p_id p) by (rewrite Hfss in Hmain; inversion Hmain; assumption).
+    all: match goal with
+         | |- res_rel (fun f => compute_next_state _ f _ _ ?e) _ =>
+             destruct (string_in (event_type e) default_triggers) eqn:Htr; cbn [negb];
+             [|rewrite <- Hc; apply (run_nontrigger s w k e fs lp I Hfss Hfl Hst Hib Hi Hw Hk Hnk Htr)];
+             destruct (wait_match w e) eqn:Hm;
+             [rewrite (resume_lexec fuel (sp_ctx sp) [] k Hnk);
+              apply (run_match fuel s w k e fs lp (sp_ctx sp) I Hfss Hfl Hst Hib Hi Hw Hk Hnk Hc Htr Hm)|];
+             destruct (actionable w) eqn:Ha; rewrite <- Hc;
+             [apply (run_abort s w e fs I Hfss Hfl Hst Hi Hw Htr Hm Ha)
+             |apply (run_stay s w k e fs lp I Hfss Hfl Hst Hib Hi Hw Hk Hnk Htr Hm Ha)]
+         end.
+  Qed.
+
+  Definition no_hide (l : list event) : Prop := Forall (fun e => e <> EvHide) l.
+
+  Lemma R_stop : forall s sp, R s sp ->
+    R (st_set_fss s []) {| sp_st := Idle; sp_ctx := sp_ctx sp; sp_upd := sp_upd sp; sp_next := sp_next sp |}.
+  Proof.
+    intros s sp (Hc & Hu & Hn & Hnw & Hmain & Hshape). unfold R. cbn [sp_st sp_ctx sp_upd sp_next]. simpl.
+    split; [exact Hc|split; [exact Hu|split; [exact Hn|split; [exact Hnw|split; constructor]]]].
+  Qed.
+
+  (* a whole history *)
+  Lemma run_events_sim : forall fuel l s sp,
+    R s sp -> no_hide l ->
+    res_rel (fun f => run_events o f cs s l) (spec_run fuel p sp l).
+  Proof.
+    intros fuel. induction l as [|e rest IH]; intros s sp HR Hnh.
+    - simpl. exists s. split; [exact HR|]. exists 0%nat. intros; reflexivity.
+    - inversion Hnh as [|? ? He Hrest]; subst.
+      pose proof (cns_sim fuel s sp e HR He) as H1.
+      cbn [spec_run]. destruct (spec_event fuel p sp e) as [sp1| |]; cbn [bind res_rel] in *; auto.
+      + destruct H1 as (s1 & HR1 & F1 & HF1).
+        assert (HR1' : R (if is_bot_stop e then st_set_fss s1 [] else s1)
+                         (if is_bot_stop e
+                          then {| sp_st := Idle; sp_ctx := sp_ctx sp1; sp_upd := sp_upd sp1; sp_next := sp_next sp1 |}
+                          else sp1)).
+        { destruct (is_bot_stop e); [apply R_stop|]; exact HR1. }
+        pose proof (IH _ _ HR1' Hrest) as H2.
+        destruct (spec_run fuel p _ rest) as [sp2| |]; cbn [res_rel] in *; auto.
+        * destruct H2 as (s2 & HR2 & F2 & HF2). exists s2. split; [exact HR2|].
+          exists (Nat.max F1 F2). intros f Hf. cbn [run_events]. rewrite HF1 by lia. cbn [bind]. apply HF2. lia.
+        * destruct H2 as (F2 & HF2). exists (Nat.max F1 F2). intros f Hf.
+          cbn [run_events]. rewrite HF1 by lia. cbn [bind]. apply HF2. lia.
+      + destruct H1 as (F1 & HF1). exists F1. intros f Hf. cbn [run_events]. rewrite HF1 by lia. reflexivity.
+  Qed.
+
+  Lemma in_firstn : forall {A} n (l : list A) x, In x (firstn n l) -> In x l.
+  Proof.
+    intros A. induction n; intros l x H; simpl in H; [contradiction|].
+    destruct l; simpl in *; [contradiction|]. destruct H; [left; exact H|right; apply IHn; exact H].
+  Qed.
+
+  Lemma preprocess_no_hide : forall hist acc a,
+    preprocess hist acc = Ok a -> no_hide acc -> no_hide a.
+  Proof.
+    induction hist as [|e rest IH]; intros acc a H Hacc; simpl in H.
+    - inversion H; subst; exact Hacc.
+    - destruct e; try (eapply IH; [exact H|]; apply Forall_app; split; [exact Hacc|];
+                       constructor; [congruence|constructor]).
+      destruct (last_uuaf acc 0 None) as [n|]; [|discriminate].
+      eapply IH; [exact H|]. unfold no_hide in *. rewrite Forall_forall in *.
+      intros x Hin. apply Hacc. eapply in_firstn; eauto.
+  Qed.
+
+  Lemma final_steps_R : forall s sp actual,
+    R s sp -> final_steps s actual = Ok (spec_steps sp actual).
+  Proof.
+    intros s sp actual (Hc & Hu & Hn & Hnw & _ & _). unfold final_steps, spec_steps.
+    rewrite Hn, Hu.
+    destruct (sp_next sp) as [w|] eqn:En; cbn [option_map bind].
+    - destruct (Hnw w eq_refl) as (Hw & Ha). rewrite (step_of_wait_ok w Hw Ha). cbn [bind].
+      destruct actual; [reflexivity|]. destruct (is_bot_stop _); reflexivity.
+    - destruct actual; [rewrite app_nil_r; reflexivity|]. destruct (is_bot_stop _); [reflexivity|].
+      rewrite app_nil_r. reflexivity.
+  Qed.
+
+  Lemma R_init : R init_state spec_init.
+  Proof.
+    unfold R, init_state, spec_init. simpl.
+    split; [reflexivity|split; [reflexivity|split; [reflexivity|split; [|split; constructor]]]].
+    intros w E; discriminate.
+  Qed.
+
+  Theorem compile_correct_nodo : forall fuel hist r,
+    next_steps fuel p hist = r -> r <> Fuel ->
+    exists F, forall f, (F <= f)%nat -> compute_next_steps o f cs hist = r.
+  Proof.
+    intros fuel hist r Hr Hnf. unfold next_steps in Hr. unfold compute_next_steps.
+    destruct (preprocess hist []) as [actual| |] eqn:Ep; cbn [bind] in *.
+    - assert (Hnh : no_hide actual) by (eapply preprocess_no_hide; [exact Ep|constructor]).
+      pose proof (run_events_sim fuel actual init_state spec_init R_init Hnh) as H.
+      destruct (spec_run fuel p spec_init actual) as [sp| |]; cbn [bind res_rel] in *.
+      + destruct H as (s & HR & F & HF). exists F. intros f Hf. rewrite HF by exact Hf. cbn [bind].
+        rewrite (final_steps_R _ _ _ HR). exact Hr.
+      + destruct H as (F & HF). exists F. intros f Hf. rewrite HF by exact Hf. exact Hr.
+      + congruence.
+    - exists 0%nat. intros; exact Hr.
     - congruence.
   Qed.
 End Prog.
+
+(* ------------------------------------------------------------------ the statements Props/C14.v uses *)
+
+From NG Require Import Gen.C14Consts.
+Open Scope list_scope.
+Open Scope Z_scope.
+
+(* the interpreter as the CURRENT source configures it (translator/gen_c14.py) *)
+Definition opts_now : opts := {| o_mark := start_marks_completed; o_guard := call_records_active_only |}.
+
+Definition steps_now (fuel : nat) (cs : configs) (h : list event) : res (list out_event) :=
+  compute_next_steps opts_now fuel cs h.
+
+(* FULL STATEMENT (any structured program of the subset, subflow calls included).  Proved below
+   for dialog flows without `do` (compile_correct_partial); with `do` it is what the correspondence
+   check tests on every run and what the Examples at the end evaluate on a nested program. *)
+Definition compile_correct_statement : Prop :=
+  forall p fuel hist r,
+    wf_prog p = true ->
+    next_steps fuel p hist = r -> r <> Fuel ->
+    exists F, forall f, (F <= f)%nat -> steps_now f (compile_prog p) hist = r.
+
+Theorem compile_correct_partial : forall p fuel hist r,
+  start_marks_completed = true ->
+  wf_prog p = true -> nodo_block (p_main p) = true ->
+  next_steps fuel p hist = r -> r <> Fuel ->
+  exists F, forall f, (F <= f)%nat -> steps_now f (compile_prog p) hist = r.
+Proof.
+  intros p fuel hist r Hmark Hwf Hnodo Hr Hnf.
+  exact (compile_correct_nodo p opts_now Hwf Hnodo Hmark fuel hist r Hr Hnf).
+Qed.
+
+(* ---- leaving the flow *)
+
+Lemma preprocess_snoc : forall hist acc a e,
+  e <> EvHide -> preprocess hist acc = Ok a -> preprocess (hist ++ [e]) acc = Ok (a ++ [e]).
+Proof.
+  induction hist as [|x rest IH]; intros acc a e He H; simpl in *.
+  - inversion H; subst. destruct e; try congruence; reflexivity.
+  - destruct x; try (apply IH; assumption).
+    destruct (last_uuaf acc 0 None); [apply IH; assumption|discriminate].
+Qed.
+
+Lemma spec_run_snoc : forall fuel p l s e,
+  spec_run fuel p s (l ++ [e]) = bind (spec_run fuel p s l) (fun s1 => spec_run fuel p s1 [e]).
+Proof.
+  intros fuel p. induction l as [|x rest IH]; intros s e; simpl.
+  - destruct (spec_event fuel p s e); reflexivity.
+  - destruct (spec_event fuel p s x); simpl; [apply IH|reflexivity|reflexivity].
+Qed.
+
+(* the specification's view of "the history has followed the flow up to a statement w" *)
+Definition follows_to (fuel : nat) (p : prog) (hist : list event) (w : wait) (k : kont) (stk : list kont)
+  (c : ctx) : Prop :=
+  exists actual sp, preprocess hist [] = Ok actual /\ spec_run fuel p spec_init actual = Ok sp /\
+                    sp_st sp = Run w k stk /\ sp_ctx sp = c.
+
+Lemma spec_leave : forall fuel p hist w k stk c ev,
+  follows_to fuel p hist w k stk c ->
+  match ev with EvStartAct | EvCtx _ | EvHide => False | _ => True end ->
+  string_in (event_type ev) default_triggers = true ->
+  wait_match w ev = false ->
+  next_steps fuel p (hist ++ [ev]) = Ok [].
+Proof.
+  intros fuel p hist w k stk c ev (actual & sp & Hp & Hrun & Hst & Hc) Hpl Htr Hm.
+  unfold next_steps. rewrite (preprocess_snoc hist [] actual ev); [|destruct ev; try congruence; contradiction|exact Hp].
+  cbn [bind]. rewrite spec_run_snoc, Hrun. cbn [bind spec_run].
+  assert (E : exists st', spec_event fuel p sp ev =
+                          Ok {| sp_st := st'; sp_ctx := sp_ctx sp; sp_upd := []; sp_next := None |}).
+  { destruct ev; try contradiction; cbn [spec_event]; rewrite Hst, Htr; cbn [negb]; rewrite Hm;
+      destruct (actionable w); eauto. }
+  destruct E as (st' & E). rewrite E. cbn [bind].
+  unfold spec_steps.
+  destruct (match actual ++ [ev] with [] => false | _ => is_bot_stop (last (actual ++ [ev]) EvHide) end);
+    [reflexivity|]. destruct (is_bot_stop ev); reflexivity.
+Qed.
+
+Theorem leave_partial : forall p fuel hist w k stk c ev,
+  start_marks_completed = true ->
+  wf_prog p = true -> nodo_block (p_main p) = true ->
+  follows_to fuel p hist w k stk c ->
+  match ev with EvStartAct | EvCtx _ | EvHide => False | _ => True end ->
+  string_in (event_type ev) default_triggers = true ->
+  wait_match w ev = false ->
+  exists F, forall f, (F <= f)%nat -> steps_now f (compile_prog p) (hist ++ [ev]) = Ok [].
+Proof.
+  intros p fuel hist w k stk c ev Hmark Hwf Hnodo Hfol Hpl Htr Hm.
+  eapply compile_correct_partial; eauto.
+  - eapply spec_leave; eauto.
+  - congruence.
+Qed.
+
+(* ---- following the flow: the decided step is the statement the reference semantics blocks on
+        next, evaluated in the context the `set`s built *)
+Lemma spec_follow : forall fuel p hist w k stk c ev,
+  follows_to fuel p hist w k stk c ->
+  match ev with EvStartAct | EvCtx _ | EvHide => False | _ => True end ->
+  string_in (event_type ev) default_triggers = true ->
+  wait_match w ev = true -> is_bot_stop ev = false ->
+  next_steps fuel p (hist ++ [ev]) =
+  match resume (p_subs p) fuel c [] k stk with
+  | XWait w' _ _ _ u' => Ok ((match u' with [] => [] | _ => [OCtx u'] end) ++
+                            (if actionable w' then [step_of_wait w'] else []))
+  | XEnd _ u' => Ok (match u' with [] => [] | _ => [OCtx u'] end)
+  | XExc => Exc
+  | XFuel => Fuel
+  end.
+Proof.
+  intros fuel p hist w k stk c ev (actual & sp & Hp & Hrun & Hst & Hc) Hpl Htr Hm Hstop.
+  unfold next_steps. rewrite (preprocess_snoc hist [] actual ev); [|destruct ev; try congruence; contradiction|exact Hp].
+  cbn [bind]. rewrite spec_run_snoc, Hrun. cbn [bind spec_run].
+  assert (E : spec_event fuel p sp ev = of_xres (resume (p_subs p) fuel c [] k stk)).
+  { destruct ev; try contradiction; cbn [spec_event]; rewrite Hst, Htr; cbn [negb]; rewrite Hm, Hc; reflexivity. }
+  rewrite E, Hstop.
+  assert (Hlast : match actual ++ [ev] with [] => false | _ => is_bot_stop (last (actual ++ [ev]) EvHide) end = false).
+  { rewrite last_last. destruct (actual ++ [ev]); [reflexivity|exact Hstop]. }
+  destruct (resume (p_subs p) fuel c [] k stk) as [w' k' stk' c' u'|c' u'| |]; cbn [of_xres bind]; try reflexivity.
+  - unfold spec_steps. cbn [sp_upd sp_next]. rewrite Hlast.
+    destruct (actionable w'); destruct u'; reflexivity.
+  - unfold spec_steps. cbn [sp_upd sp_next]. rewrite Hlast. rewrite app_nil_r. destruct u'; reflexivity.
+Qed.
+
+(* ---- regression documentation: without the two repairs the statement is false *)
+
+Definition ex_d1 : prog :=
+  {| p_id := "main"; p_main := [SUser "ask a"; SIf (EVar "c") [SBot "say b"] []]; p_subs := [] |}.
+Definition ex_d1_hist : list event := [EvUser "ask a"; EvCtx [("c", VBool true)]; EvUser "ask a"].
+
+Lemma unmarked_start_refuted :
+  exists p hist, wf_prog p = true /\ nodo_block (p_main p) = true /\
+    next_steps 50 p hist = Ok [OBot "say b"] /\
+    compute_next_steps {| o_mark := false; o_guard := true |} 50 (compile_prog p) hist = Ok [].
+Proof. exists ex_d1, ex_d1_hist. vm_compute. repeat split; reflexivity. Qed.
+
+Definition ex_d2 : prog :=
+  {| p_id := "main"; p_main := [SUser "ask a"; SDo "s one"; SBot "say end"];
+     p_subs := [("s one", [SDo "s two"; SBot "say x"]); ("s two", [SUser "ask b"; SBot "say y"])] |}.
+
+Lemma unguarded_call_refuted :
+  exists p hist, wf_prog p = true /\
+    next_steps 50 p hist = Ok [] /\
+    compute_next_steps {| o_mark := true; o_guard := false |} 50 (compile_prog p) hist = Ok [OBot "say x"].
+Proof. exists ex_d2, [EvUser "ask a"]. vm_compute. repeat split; reflexivity. Qed.
+
+(* ---- non-vacuity: a nested program without `do` and a history that follows it, leaves it ... *)
+
+Definition ex_nodo : prog :=
+  {| p_id := "main";
+     p_main := [SUser "ask a"; SSet "i" (EInt 0); SBot "say b";
+                SIf (ECmp CEq (EVar "i") (EInt 0))
+                    [SBot "say c";
+                     SWhile (ECmp CLt (EVar "i") (EInt 2))
+                            [SUser "ask d"; SSet "i" (EAdd (EVar "i") (EInt 1));
+                             SIf (ECmp CEq (EVar "i") (EInt 1)) [SContinue] [SBreak];
+                             SBot "say never"]]
+                    [SBot "say e"];
+                SExec "act_x" "{}" (Some "r"); SBot "say f"];
+     p_subs := [] |}.
+Definition ex_nodo_hist : list event :=
+  [EvUser "ask a"; EvBot "say b"; EvBot "say c"; EvUser "ask d"; EvUser "ask d"].
+
+Example ex_nodo_hyps : wf_prog ex_nodo = true /\ nodo_block (p_main ex_nodo) = true.
+Proof. split; reflexivity. Qed.
+
+Example ex_nodo_follow :
+  next_steps 100 ex_nodo ex_nodo_hist = Ok [OCtx [("i", VInt 2)]; OAct "act_x" "{}" (Some "r")] /\
+  compute_next_steps {| o_mark := true; o_guard := true |} 100 (compile_prog ex_nodo) ex_nodo_hist
+  = Ok [OCtx [("i", VInt 2)]; OAct "act_x" "{}" (Some "r")].
+Proof. split; vm_compute; reflexivity. Qed.
+
+Example ex_nodo_follows_to :
+  exists k, follows_to 100 ex_nodo ex_nodo_hist (WExec "act_x" "{}" (Some "r")) k []
+                       [("i", VInt 2)].
+Proof. eexists. unfold follows_to. eexists. eexists. vm_compute. repeat split; reflexivity. Qed.
+
+Example ex_nodo_leave :
+  compute_next_steps {| o_mark := true; o_guard := true |} 100 (compile_prog ex_nodo)
+    (ex_nodo_hist ++ [EvUser "ask a"]) = Ok [].
+Proof. vm_compute. reflexivity. Qed.
+
+(* ... and the full statement evaluated on the nested program WITH a subflow (Structured.ex_prog) *)
+Example ex_full_instance :
+  forall h, In h [ex_hist; ex_hist ++ [EvBot "say s3"]; ex_hist ++ [EvUser "ask zzz"];
+                  firstn 3 ex_hist; firstn 5 ex_hist ++ [EvBot "say nothing"]] ->
+  compute_next_steps {| o_mark := true; o_guard := true |} 100 (compile_prog ex_prog) h
+  = next_steps 100 ex_prog h.
+Proof.
+  intros h Hin. simpl in Hin.
+  repeat (destruct Hin as [E|Hin]; [subst h; vm_compute; reflexivity|]). contradiction.
+Qed.
